@@ -493,7 +493,7 @@ def run_target(target, findings=(), seed=0, do_diff=True):
                 r = small_model(base + extra, r, target.rlimit)
                 rep = replay_model(target, r.model)
                 res["refuted"].append({"obligation": oid, "model": jsonable_model(r.model), "backend": r.backend,
-                                       "replay": rep, "goal": show(goal)[:400],
+                                       "replay": rep, "goal": show(goal)[:400], "info": repr(ob.get("info"))[:600],
                                        "pc": [show(t)[:200] for t in ob["pc"][-12:]]})
             else:
                 res["undecided"].append({"obligation": oid, "reason": r.reason, "goal": show(goal)[:300]})
@@ -529,6 +529,8 @@ def run_target(target, findings=(), seed=0, do_diff=True):
         res["diff"] = diff_target(target, seed, target.diff_samples)
         if res["diff"]["mismatches"]:
             res["engine_error"] = "interpreter differs from CPython: %r" % (res["diff"]["mismatches"][:2],)
+    if hasattr(target, "extra"):
+        res["extra_coverage"] = target.extra()
     res["wall"] = time.time() - t0
     return res
 
